@@ -58,6 +58,13 @@ CHECKS = {
  "C17": dict(cat="model_checking",
    text="RandomMinCRepPreOCF and c_inference_pareto_front on symbolic bases: the c-inference preprocessing runs symbolically (paths fix the minimal-correction-set lists), the concrete impact CSP of a path is optimised by the genuine z3, and z3 then decides against ALL integer vectors: impacts non-negative, the induced ranking accepts every base conditional (for every base on the path), Pareto-minimal (no smaller c-representation), rank(w) = sum of impacts of falsified conditionals, acceptance verdict = rank comparison; front: every member a Pareto-minimal c-representation, no duplicates, no undominated c-representation missing, enumeration stops. Bounds N<=3, M<=3. Found and fixed: front enumeration never terminating / AttributeError.",
    ref="3 C17", tech=SYMEX + "; quantifier-free minimality/completeness queries over unbounded integers"),
+ "C19": dict(cat="model_checking",
+   text="c-revision on every prior ranking with ranks 0..2 over 2 atoms (symbolic, forked per value where it enters the CSP) and literal / opaque (arbitrary-table) revision conditionals: (a) compile_alt = compile_alt_fast = CRevisionModel.to_compilation(), also after add/remove scripts vs. a fresh compilation; (b) c_revision results: non-negative integers, fixed maps respected, the revised ranking accepts every revision conditional for every input of the path, None only if no admissible parameters exist, gamma- Pareto-minimal when gamma+ = 0, never raises - decided by z3 against all integer parameter vectors; direct and via the incremental model. Found and fixed: None for unfalsifiable conditionals; AttributeError in the solver wrapper.",
+   ref="3 C19", tech=SYMEX + "; the path's concrete CSP is solved by the genuine z3, existence/minimality decided by quantifier-free queries"),
+ "C20": dict(cat="model_checking",
+   text="PARTIAL: wrapper logic of save_ocf/load_ocf/export_impacts/import_impacts/init_with_impacts*/save_metadata/load_metadata for System Z, custom and c-representation objects with a lazily computed rank prefix, under faithful-serialiser stand-ins (pickle protocol via __getstate__/__setstate__ on deep copies, identity JSON, a write may fail at open or mid-dump as a free decision): in-memory object unchanged and usable after a (failed) save, solver attributes restored / re-added, completed ranks, verdicts and impacts of the loaded object equal the original's, metadata round trip and suffix dispatch. NOT claimed: fidelity of the real pickle/JSON, reload in a fresh interpreter.",
+   ref="3 C20", tech="symbolic execution with serialiser stand-ins and injected write faults as free decisions; assertions over concrete per-path results",
+   note="as the other checks, plus: pickle/json/pathlib inside inference/preocf.py are replaced by faithful-serialiser stand-ins - the claim is about the repository's wrapper logic, not about the real encoders"),
 }
 NA = {
  "C10": "ANTLR-generated parser interpreted by the antlr4 runtime: symbolic inputs are concretised at the first DFA lookup, CrossHair gave an unsound 'Confirmed' (DFA-cache nondeterminism) and no verdict in 8 min for |s|<=3; an SMT model of ALL(*) would be a model of the runtime, not the real code (DESIGN.md 3 C10)",
